@@ -84,6 +84,10 @@ def merge(results):
     for job, res, err in results:
         if res is None:
             m["inconclusive"][err.split(":")[0]] = m["inconclusive"].get(err.split(":")[0], 0) + 1
+            if err.startswith("missing-interpreter"):
+                # the cells of that interpreter are inconclusive (recorded), the rest of the check still decides
+                m["inconclusive"][err] = m["inconclusive"].get(err, 0) + 1
+                continue
             m["crashes"].append({"job": job, "error": err})
             continue
         if res.get("status") == "crashed":
